@@ -109,16 +109,29 @@ fn valid_same_name(name: &str, like: &LibraryElementKind, variant: usize) -> Str
         LibraryElementKind::ProgramDeclaration(_) => format!("PROGRAM {}\nVAR\nok_v : INT;\nEND_VAR\nok_v := 1;\nEND_PROGRAM\n", name),
         LibraryElementKind::ConfigurationDeclaration(_) => format!("CONFIGURATION {}\nRESOURCE ok_r ON ok_cpu\nPROGRAM ok_p : ok_t;\nEND_RESOURCE\nEND_CONFIGURATION\n", name),
     };
-    match variant {
-        0 => same_kind,
-        // a different kind with the same name
-        _ => match like {
-            LibraryElementKind::FunctionBlockDeclaration(_) | LibraryElementKind::ProgramDeclaration(_) => {
-                format!("FUNCTION {} : INT\nVAR_INPUT\nok_in : INT;\nEND_VAR\n{} := ok_in;\nEND_FUNCTION\n", name, name)
-            }
-            _ => format!("FUNCTION_BLOCK {}\nVAR\nok_v : INT;\nEND_VAR\nok_v := 1;\nEND_FUNCTION_BLOCK\n", name),
-        },
+    if variant == 0 {
+        return same_kind;
     }
+    // a declaration of a different kind with the same name: every other declaration kind in turn
+    let kind_of = |e: &LibraryElementKind| match e {
+        LibraryElementKind::DataTypeDeclaration(_) => 0,
+        LibraryElementKind::FunctionDeclaration(_) => 1,
+        LibraryElementKind::FunctionBlockDeclaration(_) => 2,
+        LibraryElementKind::ProgramDeclaration(_) => 3,
+        LibraryElementKind::ConfigurationDeclaration(_) => 4,
+    };
+    let forms: Vec<(usize, String)> = vec![
+        (0, format!("TYPE\n{} : (ok_x1_{n}, ok_x2_{n});\nEND_TYPE\n", name, n = name)),
+        (0, format!("TYPE\n{} : STRUCT\nok_member : INT;\nEND_STRUCT;\nEND_TYPE\n", name)),
+        (0, format!("TYPE\n{} : INT(1..5);\nEND_TYPE\n", name)),
+        (0, format!("TYPE\n{} : ARRAY[1..2] OF INT;\nEND_TYPE\n", name)),
+        (1, format!("FUNCTION {} : INT\nVAR_INPUT\nok_in : INT;\nEND_VAR\n{} := ok_in;\nEND_FUNCTION\n", name, name)),
+        (2, format!("FUNCTION_BLOCK {}\nVAR\nok_v : INT;\nEND_VAR\nok_v := 1;\nEND_FUNCTION_BLOCK\n", name)),
+        (3, format!("PROGRAM {}\nVAR\nok_v : INT;\nEND_VAR\nok_v := 1;\nEND_PROGRAM\n", name)),
+    ];
+    let mine = kind_of(like);
+    let others: Vec<&(usize, String)> = forms.iter().filter(|(k, _)| *k != mine).collect();
+    others[(variant - 1) % others.len()].1.clone()
 }
 
 fn check_tape(tape: &[u8], gates: &Gates, stats: &mut Stats, counting: bool, cli_budget: &std::sync::atomic::AtomicI64) -> Result<(), Failure> {
@@ -194,9 +207,9 @@ fn check_tape(tape: &[u8], gates: &Gates, stats: &mut Stats, counting: bool, cli
             let rot = choice.below(chunks.len().max(1));
             order.rotate_left(rot);
             let text: String = order.iter().map(|&c| chunks[c].clone()).collect();
-            let sn = match (name, choice.below(4)) {
+            let sn = match (name, choice.below(5)) {
                 (Some(n), 1) if gates.want("SAME_NAME_COMPANION") => Some(valid_same_name(n, elem, 0)),
-                (Some(n), 2) if gates.want("SAME_NAME_COMPANION") => Some(valid_same_name(n, elem, 1)),
+                (Some(n), 2) | (Some(n), 4) if gates.want("SAME_NAME_COMPANION") => Some(valid_same_name(n, elem, 1 + choice.below(8))),
                 (Some(_), 3) if gates.want("SAME_NAME_COMPANION") => Some(chunks[*idx].clone()),
                 _ => None,
             };
